@@ -16,6 +16,7 @@ mod faulty_writer;
 mod gen;
 mod lexsim;
 mod rng;
+mod sinksim;
 mod spec;
 
 use crate::core::Tier;
@@ -26,13 +27,15 @@ fn engine_for(prop: &str) -> Option<Box<dyn DynEngine>> {
         "C06" => Box::new(Dyn(c06::EnvSim)),
         "C11" => Box::new(Dyn(cmdsim::CmdSim)),
         "C12" => Box::new(Dyn(c12::HelpSim)),
+        "C16" => Box::new(Dyn(sinksim::SinkSim(sinksim::Which::C16))),
+        "C19" => Box::new(Dyn(sinksim::SinkSim(sinksim::Which::C19))),
         "C13" => Box::new(Dyn(lexsim::LexSim(lexsim::Mode::C13))),
         "C14" => Box::new(Dyn(lexsim::LexSim(lexsim::Mode::C14))),
         _ => return None,
     })
 }
 
-pub const ALL_PROPS: &[&str] = &["C06", "C11", "C12", "C13", "C14"];
+pub const ALL_PROPS: &[&str] = &["C06", "C11", "C12", "C13", "C14", "C16", "C19"];
 
 fn arg_val(args: &[String], name: &str) -> Option<String> {
     args.iter().position(|a| a == name).and_then(|i| args.get(i + 1).cloned())
